@@ -30,6 +30,10 @@ def shards(tier):
                                 partition_by="auto", washes=[1], ncand=2))
             # two triples (repeated source / destination wells included): each is split on its own
             out.append(dict(part="c", dev=dev, op="transfer", sgeo=sg, dgeo=dg, k=2, steps=2 if tier == "quick" else 3, auto_split=True, partition_by="auto", washes=[1], ncand=2))
+        if dev == "evo":
+            # the deprecated robotools.Worklist class must honour the same options
+            for auto in (True, False):
+                out.append(dict(part="c", dev="legacy", op="transfer", sgeo="p2x2", dgeo="p2x2", k=1, steps=3, auto_split=auto, partition_by="auto", washes=[1], ncand=1))
         # history: another worklist (other device, its own max_volume) split some volume earlier in the same process
         out.append(dict(part="c", dev=dev, op="transfer", sgeo="p2x2", dgeo="p2x2", k=1, steps=2, auto_split=True, partition_by="auto", washes=[1], ncand=1,
                         earlier=True))
@@ -73,7 +77,7 @@ def scenario(ctx, p):
     if part == "c":
         if p.get("earlier"):
             E = wlops._Prefixed(ctx, "e:")
-            W0 = wlops.build(E, dict(p, dev="fluent" if p["dev"] == "evo" else "evo"))
+            W0 = wlops.build(E, dict(p, dev="fluent" if p["dev"] in ("evo", "legacy") else "evo"))
             try:
                 wlops.run(E, W0)
             except Exception:  # noqa: BLE001
